@@ -26,7 +26,7 @@ func (core *JApiCore) processContext(d *directive.Directive, root *[]*directive.
 				core.currentContextDirective.Type() == directive.URL
 
 			if isURL {
-				if core.currentContextDirective.HasExplicitContext {
+				if core.HasUnclosedExplicitContext() {
 					return d.KeywordError(fmt.Sprintf(
 						"%s %q with the \"Path\" parameter",
 						jerr.IncorrectContextOfDirective,
